@@ -40,6 +40,10 @@ def KeepsScoring (custom : Aligner → List Nat → List Nat → Res (Alignment 
 theorem idx4 (a b c d : Int) : Rs.idx [a, b, c, d] 0 = .ok a ∧ Rs.idx [a, b, c, d] 1 = .ok b ∧
     Rs.idx [a, b, c, d] 2 = .ok c ∧ Rs.idx [a, b, c, d] 3 = .ok d := ⟨rfl, rfl, rfl, rfl⟩
 
+/-- the mode tag and the clip filter commute (the text may set the tag before or after filtering) -/
+theorem filter_mode (al : Alignment) (m : AlignmentMode) :
+    ({ Alignment.filterClipOperations al with mode := m } : Alignment) = Alignment.filterClipOperations { al with mode := m } := rfl
+
 theorem global_eq_custom_with_mode_clips (custom : Aligner → List Nat → List Nat → Res (Alignment × Aligner))
     (a : Aligner) (x y : List Nat) :
     global_ custom a x y = wrapped custom (fun al => { al with mode := .Global })
@@ -47,7 +51,7 @@ theorem global_eq_custom_with_mode_clips (custom : Aligner → List Nat → List
   unfold global_ wrapped withClips
   simp only [Res.pure_eq_ok, Res.ok_bind, bind, Res.bind]
   cases custom _ x y with
-  | ok p => obtain ⟨al, a'⟩ := p; simp [idx4, Res.bind]
+  | ok p => obtain ⟨al, a'⟩ := p; simp [idx4, Res.bind, filter_mode]
   | panic => rfl
   | fuel => rfl
 
@@ -59,7 +63,7 @@ theorem semiglobal_eq_custom_with_mode_clips (custom : Aligner → List Nat → 
   unfold semiglobal_ wrapped withClips
   simp only [Res.pure_eq_ok, Res.ok_bind, bind, Res.bind]
   cases custom _ x y with
-  | ok p => obtain ⟨al, a'⟩ := p; simp [idx4, Res.bind]
+  | ok p => obtain ⟨al, a'⟩ := p; simp [idx4, Res.bind, filter_mode]
   | panic => rfl
   | fuel => rfl
 
@@ -70,7 +74,7 @@ theorem local_eq_custom_with_mode_clips (custom : Aligner → List Nat → List 
   unfold local_ wrapped withClips
   simp only [Res.pure_eq_ok, Res.ok_bind, bind, Res.bind]
   cases custom _ x y with
-  | ok p => obtain ⟨al, a'⟩ := p; simp [idx4, Res.bind]
+  | ok p => obtain ⟨al, a'⟩ := p; simp [idx4, Res.bind, filter_mode]
   | panic => rfl
   | fuel => rfl
 
